@@ -932,3 +932,50 @@ Example C20_accepted_bid_seller_example :
                         (Z.of_N (tx_lock A)) (Z.of_N (tx_version A)) (Z.of_N (in_seq si)))) = VOk.
 Proof. exact OrdSellerSign.accept_bid_seller_example. Qed.
 End SellerOfAcceptedBidAccepted.
+
+(** * Inscribe on its argument object: nil and empty say the same thing (round 8)
+
+    Go lets every field of InscriptionArgs be absent in more than one way: Data nil or an empty slice, EnrichedArgs
+    nil, OpReturnData nil or an empty list, an element of it nil.  model/InscriptionArgs.v is Inscribe over the
+    argument object with those distinctions kept ([None] = nil), in the shape of EncodeParts' loop; the
+    correspondence hands it the arguments with nil-ness as Go was given them (case CInscribeArgs of corr/C20.v). *)
+From GoBT Require model.InscriptionArgs proofs.InscriptionArgsProofs.
+Section InscribeArgumentObject.
+Import Push Inscription InscriptionProofs InscriptionArgs.
+
+(** the round trip for every way of writing "no data" / "no tail": for every 20-byte key hash, every content type,
+    every Data (nil included) and every EnrichedArgs (nil pointer, nil list, list with nil elements) within the push
+    limit, Inscribe builds a script and ParseInscription returns content type, the data (no bytes for nil) and the
+    P2PKH prefix *)
+Theorem C20_inscription_roundtrip_args : forall h20 ct (data : go_slice) (e : go_enriched),
+  length h20 = 20%nat -> lenN ct < 4294967296 -> lenN (slice_bytes data) < 4294967296 ->
+  enriched_ok (norm_enriched e) ->
+  exists s, inscribe_args_script (mkInscArgs (p2pkh_script h20) data ct e) = Some s /\
+            parse_inscription s = PIOk ct (slice_bytes data) (p2pkh_script h20).
+Proof. exact InscriptionArgsProofs.inscription_roundtrip_args. Qed.
+Print Assumptions C20_inscription_roundtrip_args.
+
+(** the argument-object model is the byte-string model on the normalised arguments (so every theorem above about
+    [inscribe_script] speaks about every argument object) *)
+Theorem C20_inscribe_args_is_inscribe_script : forall a,
+  inscribe_args_script a =
+  inscribe_script (ia_prefix a) (ia_ct a) (slice_bytes (ia_data a)) (norm_enriched (ia_enriched a)).
+Proof. exact InscriptionArgsProofs.inscribe_args_script_norm. Qed.
+Print Assumptions C20_inscribe_args_is_inscribe_script.
+
+(** a nil OP_RETURN part is pushed like an empty one (OP_0), wherever it stands in the list *)
+Theorem C20_inscribe_nil_part_is_empty_part : forall prefix data ct pre post,
+  inscribe_args_script (mkInscArgs prefix data ct (Some (Some (pre ++ None :: post)))) =
+  inscribe_args_script (mkInscArgs prefix data ct (Some (Some (pre ++ Some [] :: post)))).
+Proof. exact InscriptionArgsProofs.inscribe_nil_part_is_empty_part. Qed.
+Print Assumptions C20_inscribe_nil_part_is_empty_part.
+
+(** non-vacuity: Data left unset, OpReturnData = [nil; "B"]: a 50-byte script ending 6a 00 01 42 that parses back
+    to the content type, no data and the prefix *)
+Example C20_roundtrip_nil_data_example :
+  let ct := [x74; x65; x78; x74; x2f; x70; x6c; x61; x69; x6e] in
+  exists s, inscribe_args_script (mkInscArgs (p2pkh_script (repeat x11 20)) None ct (Some (Some [None; Some [x42]]))) = Some s /\
+            parse_inscription s = PIOk ct [] (p2pkh_script (repeat x11 20)) /\
+            lenN s = 25 + 7 + 11 + 1 + 1 + 1 + 1 + 1 + 2.
+Proof. exact InscriptionArgsProofs.roundtrip_nil_data_example. Qed.
+End InscribeArgumentObject.
